@@ -21,14 +21,16 @@ NOT proved, because false of the code (counterexamples below, findings C10-ILPB-
 * "returns normally": `sort_crash_counterexample`, `slack_crash_counterexample`;
 * joint capacity at every planned instant: a RUNNING BatchTask holds no capacity in the model
   (`running_batch_uncharged_counterexample`), dependent tasks that no precedence row separates
-  are exempt from the capacity rows (`dependent_overlap_counterexample`).  A capacity theorem
-  for instances without RUNNING BatchTasks and with linked dependent pairs is not proved here
-  (oracle only): see docs/planner_ilp_batching.md.
+  are exempt from the capacity rows (`dependent_overlap_counterexample`).  What IS proved is the
+  exact complement, `jointly_feasible_partial`: at every instant, on every worker and resource
+  type of it, the BatchTasks that are not RUNNING, placed there and occupying the instant
+  (closed occupancy, each BatchTask counted once) stay within the worker's quantity PROVIDED no
+  two of them are dependent.
 
 `I.wfShared` (two BatchTasks share a member only if both come from the queue) is a decidable
 fact about the batch formation, evaluated by the driver on every extracted instance.
 -/
-import ErdosVerif.Lemmas.IlpBatchUnique
+import ErdosVerif.Lemmas.IlpBatchCapacity
 namespace ErdosVerif.C10_IlpBatch
 open ErdosVerif.Mip ErdosVerif.IlpBatch
 open ErdosVerif.Ilp (Var compatible qty nsum)
@@ -109,6 +111,18 @@ theorem placement_wellformed {I : BInst} {σ : Var → Int} (h : sat σ (genB I)
     have := hs.2.1; simp [BInst.hasVar] at this; exact this.2
   exact ⟨hs.1, hcomp, by omega, by omega⟩
 
+/-- Full statement (FALSE: `running_batch_uncharged_counterexample`,
+`dependent_overlap_counterexample`): all placements together with the RUNNING work never exceed
+any worker's capacity at any planned instant.  Proved part: the load of the not-RUNNING
+BatchTasks occupying `τ` on `w` (`loadNR`, each BatchTask once, closed occupancy
+`[start, start + runtime]` ⊇ the simulator's half-open one) is within the worker's quantity of
+every resource type it has, provided no two of these BatchTasks are dependent. -/
+theorem jointly_feasible_partial {I : BInst} {σ : Var → Int} (h : sat σ (genB I)) {w : Nat}
+    (hw : w < I.nW) {r : String} (hr : r ∈ (I.worker w).types) (τ : Int)
+    (hind : ∀ a b, a < I.nB → b < I.nB → b ≠ a → occ I σ w τ a → occ I σ w τ b → I.dependent a b = false) :
+    loadNR I σ w r τ ≤ (qty (I.worker w).res r : Nat) :=
+  capacity_at_instant_partial h hw hr τ hind
+
 /-- When no solution is found: every offered task is answered "not placed", nothing else. -/
 theorem fail_answers (I : BInst) :
     (decodeFailB I).map BDecision.task = List.range I.nOffered ∧ ∀ d ∈ decodeFailB I, d.placed = none := by
@@ -173,6 +187,10 @@ example : sat exSigma (genB exInst) := by decide
 it is returned with BatchTask 1's placement. -/
 example : decodeB exInst exSigma =
     [⟨2, some (1, 0, 1)⟩, ⟨0, some (2, 0, 1)⟩, ⟨3, some (3, 0, 12)⟩, ⟨1, some (4, 0, 12)⟩] := by decide
+
+/-- At `τ = 1` the two chosen Camera BatchTasks (1 and 2, not dependent) fill the 20 CPUs exactly. -/
+example : loadNR exInst exSigma 0 "CPU" 1 = 20 ∧ exInst.dependent 1 2 = false ∧
+    "CPU" ∈ (exInst.worker 0).types ∧ qty (exInst.worker 0).res "CPU" = 20 := by decide
 
 /-! ### Finding C10-ILPB-2: an offered task that joins no BatchTask is not answered -/
 
